@@ -4,7 +4,9 @@ package main
 // Line kinds written for the OCaml driver (extracted Coq lexer model, reference parser, checkers):
 //   C11 E <TokenType constants in a fixed name order>
 //   C11 L <hex input> <eof pos | -1> <n> {<type> <hex value> <pos>}*        real Lexer.NextToken stream
-//   C11 P <hex sql> # <expected skeleton> # <projection of types.Config | ERR hexmsg>
+//   C11 P <hex sql> # <expected skeleton> # <projection of types.Config | ERR hexmsg> # <A|G + hex name of the registered
+//         analytic / aggregate functions occurring in the text, or ->   (only labels a recorded finding, see ocaml/c11.ml)
+//   C11 D <hex sql> <hex sql, literal contents neutral> <outcome 1> <outcome 2> <hex error 1|-> <shape 1> <shape 2> # <names as in P>
 //   C11 R <hex sql layout 1> <hex sql layout 2> <results equal 0/1> <number of result rows> <detail>
 //   C11 T <hex input> <ok|err|panic|timeout>                               rsql.Parse under recover + 2 s limit
 //   C11 F ...                                                              see c11_prefix.go
@@ -454,7 +456,7 @@ func genOperand(rng *RNG, numeric bool) []lx {
 		return []lx{V(fmt.Sprintf("%d.5", rng.Intn(9)))}
 	case 3:
 		if !numeric {
-			return []lx{V(rng.Pick(qidPool))}
+			return []lx{V(pickQid(rng))}
 		}
 	case 4:
 		return []lx{V(fmt.Sprintf("-%d", 1+rng.Intn(9)))}
@@ -473,16 +475,16 @@ func genCond(rng *RNG, idents []string, depth int) []lx {
 	atom = func() []lx {
 		switch rng.Intn(9) {
 		case 0:
-			return []lx{V(pick()), K("LIKE"), V(rng.Pick(strPool))}
+			return []lx{V(pick()), K("LIKE"), V(pickStr(rng))}
 		case 1:
 			return []lx{V(pick()), K("IS"), K("NULL")}
 		case 2:
 			return []lx{V(pick()), K("IS"), K("NOT"), K("NULL")}
 		case 3:
-			return []lx{V(pick()), V(rng.Pick([]string{"=", "!=", "=="})), V(rng.Pick(strPool))}
+			return []lx{V(pick()), V(rng.Pick([]string{"=", "!=", "=="})), V(pickStr(rng))}
 		case 4:
 			if idents == nil {
-				return []lx{V(rng.Pick(qidPool)), V(rng.Pick([]string{"=", ">", "<"})), V(strconv.Itoa(rng.Intn(20)))}
+				return []lx{V(pickQid(rng)), V(rng.Pick([]string{"=", ">", "<"})), V(strconv.Itoa(rng.Intn(20)))}
 			}
 		}
 		l := []lx{V(pick()), V(rng.Pick([]string{"=", ">", "<", ">=", "<=", "!=", "=="}))}
@@ -623,17 +625,17 @@ func genStmt(rng *RNG) *gStmt {
 				var it gItem
 				switch rng.Intn(9) {
 				case 0:
-					it = gItem{expr: []lx{V(rng.Pick(strPool))}, alias: newAlias()}
+					it = gItem{expr: []lx{V(pickStr(rng))}, alias: newAlias()}
 				case 1:
 					it = gItem{expr: []lx{V(rng.Pick([]string{"upper", "lower"})), V("("), V(rng.Pick(identPool)), V(")")}, alias: newAlias()}
 				case 2:
 					it = gItem{expr: append(append(genOperand(rng, true), V(rng.Pick([]string{"+", "-", "*", "/"}))), genOperand(rng, true)...), alias: newAlias()}
 				case 3:
-					it = gItem{expr: []lx{K("CASE"), K("WHEN"), V(rng.Pick(rowFields)), V(">"), V(strconv.Itoa(rng.Intn(30))), K("THEN"), V(rng.Pick(strPool)), K("ELSE"), V(rng.Pick(strPool)), K("END")}, alias: newAlias()}
+					it = gItem{expr: []lx{K("CASE"), K("WHEN"), V(rng.Pick(rowFields)), V(">"), V(strconv.Itoa(rng.Intn(30))), K("THEN"), V(pickStr(rng)), K("ELSE"), V(pickStr(rng)), K("END")}, alias: newAlias()}
 				case 4:
-					it = gItem{expr: []lx{V("concat"), V("("), V(rng.Pick(identPool)), V(","), V(rng.Pick(strPool)), V(")")}, alias: newAlias()}
+					it = gItem{expr: []lx{V("concat"), V("("), V(rng.Pick(identPool)), V(","), V(pickStr(rng)), V(")")}, alias: newAlias()}
 				case 5:
-					it = gItem{expr: []lx{V(rng.Pick(qidPool))}, alias: newAlias()}
+					it = gItem{expr: []lx{V(pickQid(rng))}, alias: newAlias()}
 					g.runnable = false
 				default:
 					c := uniq(func() string { return rng.Pick(identPool) })
@@ -980,8 +982,14 @@ func runC11(tier string, seed uint64, o *Out) error {
 		sqls []string
 	}
 	var runnable []runCase
-	for i := 0; i < nStmt; i++ {
+	nQuote := 0
+	for i := 0; i < nStmt+nStmt/3; i++ {
 		g := genStmt(rng)
+		if i%4 == 3 { // family (Q), c11_quotes.go: a forced-shape literal at every literal site in turn
+			g = genQuoteStmt(rng, nQuote%nQuoteSites)
+			nQuote++
+			o.Count("stmt_literal_with_other_quotes_and_call_shape")
+		}
 		ls := g.lexemes()
 		exp := g.encode()
 		var variants []string
@@ -1002,9 +1010,10 @@ func runC11(tier string, seed uint64, o *Out) error {
 			default:
 				obs = "ERR " + hx(out)
 			}
-			o.Line("C11 P %s # %s # %s", hx(sql), exp, obs)
+			o.Line("C11 P %s # %s # %s # %s", hx(sql), exp, obs, callNamesIn(sql))
 			sqls = append(sqls, sql)
 		}
+		literalIsDataLine(rng, o, g)
 		fam := "rows"
 		if g.winKind != "" {
 			fam = "aggregate"
@@ -1087,6 +1096,7 @@ func runC11(tier string, seed uint64, o *Out) error {
 		}
 	}
 	mal = append(mal, c11PrefixInputs(rng, o, tier, sqls)...)
+	mal = append(mal, c11UnknownFnInputs(rng, o, tier)...)
 	for _, s := range mal {
 		out, _, _, _ := parseGuard(s, 2*time.Second)
 		o.Line("C11 T %s %s", hx(s), out)
